@@ -270,7 +270,9 @@ pub fn compute_event(m: &Model, it: &mut Interner, same_as_last: bool) -> Value 
         f_nonfinite(&format!("n50_data.{}", nm), v, &mut nonfinite);
     }
     let (wc, wcneg) = sq(n.walls_c, 1e2, "n50.walls_c", &mut bad);
+    let (wca, wcaneg) = sq(n.walls_c_a, 1e2, "n50.walls_c_a", &mut bad);
     let nj = json!({
+        "wca": wca, "wcaneg": wcaneg, "wcaref": qv(n.walls_c_a_ref, 1e2, "n50.walls_c_a_ref", &mut bad),
         "n50": qv(n.n50, 1e4, "n50", &mut bad), "n50ref": qv(n.n50_ref, 1e4, "n50_ref", &mut bad),
         "wa": qv(n.walls_a, 1e2, "n50.walls_a", &mut bad), "wcref": qv(n.walls_c_ref, 1e2, "n50.wcref", &mut bad),
         "wc": wc, "wcneg": wcneg,
